@@ -231,6 +231,10 @@ def loadCache (version : Nat) (c : Option CacheFile) : St :=
 
 inductive Op
   | sync (full : Bool) (t : Nat) (ps : List Profile) (ds : List Device)
+  /-- a full synchronisation whose `db.cache.Store` failed: the response is applied and the
+  synchronisation point advanced (`Refresh` returns the error only afterwards), the cache file keeps
+  its previous content (write-then-rename: a failed store never touches the target) -/
+  | syncNS (t : Nat) (ps : List Profile) (ds : List Device)
   | byDev (id : Nat)
   | byKey (k : Key)
   | byHuman (pid h : Nat)
@@ -242,6 +246,7 @@ inductive Op
 
 def step (s : St) : Op → St
   | .sync full t ps ds => applySync s full t ps ds
+  | .syncNS t ps ds => { applySync s true t ps ds with cache := s.cache }
   | .byDev id => { s with pending := s.pending ++ (findByDev s id).2 }
   | .byKey k => { s with pending := s.pending ++ (lookupKey s k).2 }
   | .byHuman pid h => { s with pending := s.pending ++ (lookupHuman s pid h).2 }
@@ -256,6 +261,35 @@ def run (ops : List Op) : St := ops.foldl step init
 /-- Run every pending clean-up, oldest first. -/
 def flush (s : St) : St :=
   s.pending.foldl applyCleanup { s with pending := [] }
+
+/-! ### `backendpb.ProfileStorage.Profiles`: from the stream of wire profiles to the response -/
+
+/-- A wire `DeviceSettings` and whether `(*DeviceSettings).toInternal` accepts it (addresses well
+formed, dedicated IPs among the bound ones, valid ids and names). -/
+structure WireDevice where
+  dev : Device
+  valid : Bool
+
+/-- A wire `DNSProfile` (its `devIds` are not on the wire) and whether
+`(*DNSProfile).toInternal` accepts it. -/
+structure WireProfile where
+  prof : Profile
+  devs : List WireDevice
+  ok : Bool
+
+/-- `devicesToInternal`: rejected devices are dropped. -/
+def acceptedDevs (ws : List WireDevice) : List Device := (ws.filter (·.valid)).map (·.dev)
+
+/-- `(*DNSProfile).toInternal`: `DeviceIDs` are the ids of the accepted devices. -/
+def convProfile (w : WireProfile) : Profile :=
+  { w.prof with devIds := (acceptedDevs w.devs).map (·.id) }
+
+/-- The receive loop of `Profiles`: a rejected profile is skipped with its devices. -/
+def respOfWire : List WireProfile → List Profile × List Device
+  | [] => ([], [])
+  | w :: r =>
+    if w.ok then (convProfile w :: (respOfWire r).1, acceptedDevs w.devs ++ (respOfWire r).2)
+    else respOfWire r
 
 /-! ### The synchronisation protocol seen from the storage -/
 
